@@ -120,6 +120,21 @@ def ok_worlds(ws, cap=32):
     return out, None
 
 
+def definite_fault(ws):
+    """an out-of-extent access (or undefined behaviour) recorded on a feasible path of a world that the engine could
+    not finish (step budget, unknown branch): the access happened before the engine gave up, so it is a fact about the
+    code even though the rest of the run is undecided.  -> text or None"""
+    for w in ws:
+        if w.status in ('ok', 'infeasible') or B.PathCond(w.decisions).infeasible:
+            continue
+        if w.oob:
+            return '%s (the run was then abandoned: %s)' % (fmt_oob(w.oob[0]), w.reason)
+        ub = ub_note({'notes': w.notes})
+        if ub:
+            return 'undefined behaviour: %s (the run was then abandoned: %s)' % (ub, w.reason)
+    return None
+
+
 def world_pairs(wa, wb):
     """feasible combinations of the worlds of two runs over the same symbolic inputs"""
     for a in wa:
@@ -154,6 +169,11 @@ def ub_note(rec):
         if n[0] == 'shift-out-of-range':
             l = n[4]
             return '%s by %d of a %d-bit operand at %s:%s' % (n[1], n[2], n[3], rel(l[0]) if l else '?', l[1] if l else '?')
+        if n[0] == 'use-after-scope':
+            l = n[3]
+            return ('%s of the local object %s at %s:%s after the end of its scope (its lifetime is over: an optimising '
+                    'compiler reuses the slot or drops the stores that filled it)'
+                    % ('read' if n[2] == 'r' else 'write', n[1].split('#')[0], rel(l[0]) if l else '?', l[1] if l else '?'))
     return None
 
 
@@ -334,7 +354,17 @@ def judge_getter(ctx, f, fld, path):
 
 def _judge_getter_world(ctx, f, fld, fmt, base, where, R, rec, issues, out):
     if rec['status'] != 'ok':
-        issues.append(('C01', 'undecided', base, '%s: %s' % (where, rec['reason'])))
+        ub = ub_note(rec)
+        if ub:
+            issues.append(('C01', 'violation', base + ':undefined', '%s: the result depends on undefined behaviour: %s (then: %s)'
+                           % (where, ub, rec['reason'])))
+        elif foreign_effects(rec):
+            issues.append(('C01', 'violation', base + ':foreign-state',
+                           '%s: touches memory other than its argument and constant tables (%s) - the result depends on state '
+                           'that is not the buffer (analysis then stopped: %s)'
+                           % (where, ', '.join('%s of %s' % (k, n) for n, k in foreign_effects(rec)), rec['reason'])))
+        else:
+            issues.append(('C01', 'undecided', base, '%s: %s' % (where, rec['reason'])))
         return out
     w = fld['width']
     p = pdu_rec(rec)
@@ -425,7 +455,17 @@ def judge_setter(ctx, f, fld, path):
 
 def _judge_setter_world(ctx, f, fld, fmt, base, where, P, rec, issues, out):
     if rec['status'] != 'ok':
-        issues.append(('C02', 'undecided', base, '%s: %s' % (where, rec['reason'])))
+        ub = ub_note(rec)
+        if ub:
+            issues.append(('C02', 'violation', base + ':undefined', '%s: the write depends on undefined behaviour: %s (then: %s)'
+                           % (where, ub, rec['reason'])))
+        elif foreign_effects(rec):
+            issues.append(('C02', 'violation', base + ':foreign-state',
+                           '%s: touches memory other than its argument and constant tables (%s) - the write depends on state '
+                           'that is not the buffer (analysis then stopped: %s)'
+                           % (where, ', '.join('%s of %s' % (k, n) for n, k in foreign_effects(rec)), rec['reason'])))
+        else:
+            issues.append(('C02', 'undecided', base, '%s: %s' % (where, rec['reason'])))
         return out
     w = fld['width']
     p = pdu_rec(rec)
@@ -575,7 +615,16 @@ def judge_init(ctx, f, fname, extra_args=None, image=None, prop='C04', legacy=Fa
 
 def _judge_init_world(ctx, f, fmt, base, where, prop, hl, img, rec, issues, out):
     if rec['status'] != 'ok':
-        issues.append((prop, 'undecided', base, '%s: %s' % (where, rec['reason'])))
+        ub = ub_note(rec)
+        if ub:
+            issues.append((prop, 'violation', base + ':undefined', '%s: the result depends on undefined behaviour: %s (then: %s)'
+                           % (where, ub, rec['reason'])))
+        elif foreign_effects(rec):
+            issues.append((prop, 'violation', base + ':foreign-state',
+                           '%s: touches memory other than its argument and constant tables (%s) (analysis then stopped: %s)'
+                           % (where, ', '.join('%s of %s' % (k, n) for n, k in foreign_effects(rec)), rec['reason'])))
+        else:
+            issues.append((prop, 'undecided', base, '%s: %s' % (where, rec['reason'])))
         return out
     p = pdu_rec(rec)
     out['image'] = []
